@@ -3,7 +3,8 @@
    Stark bin integral instantiated by look-up tables written by the harness (the keys are the exact
    rational arguments the MODEL asks for; a missing key yields an absurd value and the case fails). *)
 Require Import Cherab.Common.Qx.
-Require Import Cherab.Model.C02_LineShape Cherab.Model.C02_Quadrature.
+Require Import Cherab.Model.C02_LineShape Cherab.Model.C02_Quadrature Cherab.Model.C02_Policy.
+From Coq Require String.
 From Coq Require Import Qabs.
 Open Scope Q_scope.
 
@@ -99,8 +100,24 @@ Definition sqrt_table_ok (t : qtree) : bool := tree_forall sqrt_entry_ok t.
 (* erf table: values within [-1, 1] *)
 Definition erf_table_ok (t : qtree) : bool := tree_forall (fun _ v => Qle_bool (-1) v && Qle_bool v 1) t.
 
+(* the tabulated functions are monotone: keys strictly increasing in order, values non-decreasing up to one ulp of 1 *)
+Fixpoint tree_inorder (t : qtree) : list (Q * Q) :=
+  match t with QLeaf => [] | QNode l k v _ r => tree_inorder l ++ (k, v) :: tree_inorder r end.
+Fixpoint sorted_kv (l : list (Q * Q)) : bool :=
+  match l with
+  | (k1, v1) :: t => match t with
+                     | (k2, v2) :: _ => Qltb k1 k2 && Qle_bool v1 (v2 + pow2 (-52) * Qmax 1 (Qabs v2)) && sorted_kv t
+                     | [] => true
+                     end
+  | [] => true
+  end.
+Definition monotone_table (t : qtree) : bool := sorted_kv (tree_inorder t).
+Definition tables_plausible (T : otabs) : bool :=
+  sqrt_table_ok (tS T) && erf_table_ok (tE T) && monotone_table (tE T) && monotone_table (tS T)
+  && monotone_table (tLn T) && monotone_table (tEx T).
+
 Definition run_usage (T : otabs) (sqrt2 Rsup : Q) (cs : list comp) (g : grid) (smp0 out : list Q) : Q :=
-  if sqrt_table_ok (tS T) && erf_table_ok (tE T)
+  if tables_plausible T
   then usage_comps (look1 (tE T)) sqrt2 (lookI (tI T)) Rsup cs g smp0 out
   else 3.
 Definition agrees (u : Q) : bool := Qle_bool u 1.
@@ -155,3 +172,20 @@ Fixpoint pairs_ok (model : list (Q * Q)) (ws rs : list Q) : bool :=
   | _, _, _ => false
   end.
 Definition check_zs (raw : list (Q * Q)) (ws rs : list Q) : bool := pairs_ok (zs_evaluate raw) ws rs.
+
+(* ---- validation policy and the polarisation setter: model outcome against the implementation's ---- *)
+Definition check_bool (model impl : bool) : bool := Bool.eqb model impl.
+Fixpoint pol_trace_eqb (tr : list (bool * String.string)) (errs : list bool) (gets : list String.string) : bool :=
+  match tr, errs, gets with
+  | [], [], [] => true
+  | (e, s) :: t, e' :: te, s' :: ts => Bool.eqb e e' && String.eqb s s' && pol_trace_eqb t te ts
+  | _, _, _ => false
+  end.
+(* constructor with polarisation `init` (ctor_ok = no ValueError), then setter calls vs: per call (ValueError?, getter) *)
+Definition check_pol_history (init : String.string) (ctor_ok : bool) (vs : list String.string) (errs : list bool) (gets : list String.string) : bool :=
+  match pol_of_string init with
+  | None => negb ctor_ok
+  | Some st => ctor_ok && pol_trace_eqb (snd (pol_run st vs)) errs gets
+  end.
+Fixpoint qlist_eqb (a b : list Q) : bool :=
+  match a, b with [], [] => true | x :: t, y :: u => Qeq_bool x y && qlist_eqb t u | _, _ => false end.
